@@ -346,6 +346,8 @@ class Executor:
 
     def _clear_shared_memory(self, app_id: int) -> None:
         self._shared_memories.pop(app_id)
+        # Also forget it globally, such that the app ID can be registered again
+        SharedMemoryManager.remove_shared_memory(node_name=self._name, key=app_id)
 
     def _reset_program_counter(self, subroutine_id: int) -> None:
         """Resets the program counter for a given subroutine ID"""
